@@ -35,3 +35,5 @@ run C02-d C02;         run C17-d C17
 run C03-c C06 C03;     run C05-d C05
 run C09-c C09 C14;     run C14-d C14
 run C11-c C19 C11;     run C12-c C02 C12
+run C07-d C07 C03;     run C10-d C05 C10
+run C15-c C15;         run C19-d C19
